@@ -429,3 +429,63 @@ func H_two_capture() {
 	}
 	symx.Reach("end")
 }
+
+// H_sequential: requests served ONE AFTER ANOTHER (no overlap) through every kind of stack —
+// plain handler, closure middleware, onError wrapper, both — each reading $_GET and $_SERVER and
+// the request object: every request sees its own data. The recorded superglobal finding is about
+// overlapping requests; sequentially the caches are reset per request, so any stale value here is a
+// violation.
+const seqSrc = `
+function mw($request, $response, $next) {
+  $response->write("m:" . $_GET["x"] . ";");
+  $next($request, $response);
+}
+function onerr($e, $request, $response) { $response->write("E"); }
+function handler($r, $w) {
+  $q = $r->query();
+  $w->write("g:" . $_GET["x"] . ";q:" . $q->x . ";");
+}
+`
+
+func H_sequential() {
+	stack := symx.Choose("stack", 4) // 0 handler, 1 middleware, 2 onError, 3 onError around middleware
+	p := parser.NewParser()
+	vm := runtime.NewVM(p)
+	vm.SetThrowControl(func(acl data.Control) {})
+	prog, ctl := p.ParseString(seqSrc, "h.zy")
+	symx.Assert(ctl == nil, "script parses")
+	if ctl != nil {
+		return
+	}
+	ctx := vm.CreateContext(p.GetVariables())
+	prog.GetValue(ctx)
+	hf, ok1 := vm.GetFunc("handler")
+	mf, ok2 := vm.GetFunc("mw")
+	ef, ok3 := vm.GetFunc("onerr")
+	symx.Assert(ok1 && ok2 && ok3, "functions defined")
+	if !ok1 || !ok2 || !ok3 {
+		return
+	}
+	var chain http.Handler = ohttp.Handler{Value: hf, Ctx: ctx}
+	if stack == 1 || stack == 3 {
+		wrap, err := ohttp.VerifNewMiddleware(mf, ctx)
+		symx.Assert(err == nil, "middleware accepted")
+		if err != nil {
+			return
+		}
+		chain = wrap(chain)
+	}
+	if stack >= 2 {
+		chain = ohttp.VerifWithErrorHandler(ef, ctx, chain)
+	}
+	for _, q := range []string{"1", "2", "3"} {
+		rec := &recorder{hdr: http.Header{}}
+		chain.ServeHTTP(rec, request(q))
+		want := "g:" + q + ";q:" + q + ";"
+		if stack == 1 || stack == 3 {
+			want = "m:" + q + ";" + want
+		}
+		symx.Assert(string(rec.body) == want, "sequential request "+q+": superglobals and the request object belong to this request")
+	}
+	symx.Reach("end")
+}
